@@ -10,6 +10,7 @@ import H5V.Model.DomDriver
 import H5V.Model.HtmlTokDriver
 import H5V.Model.HtmlTBDriver
 import H5V.Model.XmlTokDriver
+import H5V.Model.XmlJointDriver
 import H5V.Spec.HtmlTokenizerDriver
 /- Model driver: reads one case per line (`engine<TAB>field<TAB>…`) on stdin, writes one result line. -/
 open H5V
@@ -26,6 +27,7 @@ def dispatch (line : String) : String :=
   | "rcdom" :: fields => Model.DomDriver.runCase fields
   | "tok" :: fields => Model.HtmlTokDriver.runCase fields
   | "tb" :: fields => Model.HtmlTBDriver.runCase fields
+  | ["xmltok", "jtree", optsS, chunksS] => Model.XmlJointDriver.runJoint optsS chunksS
   | "xmltok" :: fields => Model.XmlTokDriver.runCase fields
   | "tokspec" :: fields => Spec.HtmlTokenizerDriver.runCase fields
   | _ => "bad-engine"
